@@ -80,3 +80,5 @@ Proof. exact handshake_ivl_semantics. Qed.
 From RZ Require Import Model.EngineCfg Proofs.OptionsEngine.
 Theorem C07_maxmsgsize_option_limit : forall (o : opts) (m : Z), (0 <= m <= 9223372036854775807)%Z -> exists o', apply_opt o MAXMSGSIZE (i64_bytes m) = inl o' /\ cfg_max_msg_size o' = m /\ (forall f rest, fits f -> len (f_payload f) = Z.to_N m -> dec_buffer (cfg_max_msg_size o') (enc_codec f ++ rest) = DFrame f (length (enc_codec f))) /\ (forall f rest, fits f -> Z.to_N m < len (f_payload f) -> dec_buffer (cfg_max_msg_size o') (enc_codec f ++ rest) = DErr).
 Proof. exact maxmsgsize_option_limit. Qed.
+Theorem C07_maxmsgsize_option_get_after_set : forall (o : opts) (v : Z), (-1 <= v <= 9223372036854775807)%Z -> exists o', apply_opt o MAXMSGSIZE (i64_bytes v) = inl o' /\ retrieve_opt o' MAXMSGSIZE = GOk (i64_bytes v).
+Proof. exact maxmsgsize_get_after_set. Qed.
